@@ -6,6 +6,7 @@
 mod boxed;
 mod fixed;
 mod gens;
+mod recip;
 mod recsel;
 mod sim;
 mod surface;
@@ -73,5 +74,7 @@ fn subchecks(ctx: &Ctx) -> Vec<SubCheck> {
     v.extend(recsel::subchecks());
     // API-surface audit (/verif/audit/A.md): forms, routes and widths reached only through a sibling before
     v.extend(surface::subchecks(ctx));
+    // every slim-margin prefix of the reciprocal's Newton refinement (see recip.rs)
+    v.push(SubCheck::new("limb/reciprocal-newton-margins", 6_000, recip::newton_margins).tape(16).thorough(4));
     v
 }
